@@ -161,7 +161,11 @@ class Argv:
         if len(case["names"]) > 1:
             ctx.probe("odd_file_name")
         if ctrl.exit_code != 0:
-            raise invoker.HarnessError("control run failed: exit %s %s %s" % (ctrl.exit_code, ctrl.exc, ctrl.logs[-3:]))
+            # the plain control world is ordinary use; if even that fails there is nothing to compare against
+            ctx.count("control_run_failed")
+            ctx.violation("C10", "plain_update_failed", facts, "update with plain ASCII messages and names failed: exit %s %s %s" % (
+                ctrl.exit_code, ctrl.exc, [m for _l, _n, m in ctrl.logs][-3:]))
+            return
 
         def mut(r):
             return [e for e in r.events if e["kind"] == "vcs" and e["role"] in fakevcs.MUTATING]
